@@ -168,6 +168,7 @@ fn c10_3a_post_wakes_exactly_one() {
 }
 
 //@ obligation: C10.4a
+//@ property: C10 C09
 //@ kind: K3
 //@ complete: yes
 //@ functions: Semphore::wait_timeout_impl
